@@ -118,6 +118,7 @@ MUTATIONS = {
         ('decode', 'tonic/src/codec/decode.rs', r'self\.inner\.state = State::Error\(None\);\s*return Poll::Ready\(Some\(Err\(status\)\)\);\s*\}\s*\}\s*\n\s*match ready!', 'return Poll::Ready(Some(Err(status)));\n                }\n            }\n\n            match ready!', 'decode error does not enter the error state'),
     ],
     'C08': [
+        ('metadata', 'tonic/src/metadata/map.rs', r'(impl<\'a> Iterator for ValuesMut<\'a> \{[\s\S]*?)ValueRefMut::Ascii\(MetadataValue::unchecked_from_mut_header_value_ref\(value\)\)\n            \} else \{\n                ValueRefMut::Binary', r'\1ValueRefMut::Binary(MetadataValue::unchecked_from_mut_header_value_ref(value))\n            } else {\n                ValueRefMut::Ascii', 'values_mut presents every value on the wrong side'),
         ('metadata', 'tonic/src/metadata/map.rs', r'(pub fn get_all_bin<K>[\s\S]*?)inner: key\.get_all\(self\),', r'\1inner: None,', 'get_all_bin never finds anything'),
         ('metadata', 'tonic/src/metadata/map.rs', r'Some\(map\.headers\.get_all\(self\.inner\)\)', 'Some(map.headers.get_all("te"))', 'get_all of an owned key reads another header'),
         ('b64cfg', 'tonic/src/util.rs', r'(STANDARD: GeneralPurpose[\s\S]*?)DecodePaddingMode::Indifferent', r'\1DecodePaddingMode::RequireCanonical', 'padded-only decoding: unpadded binary metadata from a peer is refused'),
